@@ -4,9 +4,21 @@
 import numpy as np, math
 from scipy import linalg, integrate, special
 
-def coalescent_sfs(n, epochs, theta=1.0):
-    """epochs: list of (nu, T) FORWARD in time, following an infinitely old ancestral population of size 1.
-    Time in units of 2*Nref generations, theta = 4*Nref*mu.  Returns E[xi_i], i = 1..n-1."""
+_W = {}
+def _branch_weights(n):
+    """W[i-1, a] = k * P(a branch present while there are k = a+2 lineages subtends i of the n samples)"""
+    if n not in _W:
+        W = np.zeros((n - 1, n - 1))
+        for i in range(1, n):
+            for a, k in enumerate(range(2, n + 1)):
+                if n - i - 1 >= k - 2:
+                    W[i - 1, a] = k * special.comb(n - i - 1, k - 2, exact=True) / special.comb(n - 1, k - 1, exact=True)
+        _W[n] = W
+    return _W[n]
+
+def _sfs_from_pieces(n, pieces, theta=1.0):
+    """pieces: list of (nu, dtau) BACKWARD in time from the present, a piece of constant size nu lasting dtau units of coalescent
+    time (= real length / nu); before the last piece the size is 1 forever.  Returns E[xi_i], i = 1..n-1."""
     ks = np.arange(2, n + 1)
     m = len(ks)
     lam = ks * (ks - 1) / 2.0
@@ -19,22 +31,64 @@ def coalescent_sfs(n, epochs, theta=1.0):
     Qinv = np.linalg.inv(Q)
     p = np.zeros(m); p[-1] = 1.0                      # start with n lineages at present
     ET = np.zeros(m)
-    for nu, T in reversed(list(epochs)):               # backward in time: most recent epoch first
-        if T <= 0: continue
-        dtau = T / nu
-        E = linalg.expm(Q * dtau)
-        # integral_0^dtau p e^{Q s} ds = p Q^{-1} (e^{Q dtau} - I); real time = nu * tau
-        ET += nu * (p @ (Qinv @ (E - np.eye(m))))
+    cache = {}
+    for nu, dtau in pieces:
+        if dtau <= 0: continue
+        if dtau not in cache:
+            if len(cache) > 64: cache.clear()
+            E = linalg.expm(Q * dtau)
+            # integral_0^dtau e^{Q s} ds = Q^{-1} (e^{Q dtau} - I); real time = nu * tau
+            cache[dtau] = (E, Qinv @ (E - np.eye(m)))
+        E, J = cache[dtau]
+        ET += nu * (p @ J)
         p = p @ E
     ET += 1.0 * (p @ (-Qinv))                          # ancestral epoch, size 1, forever
-    out = np.zeros(n - 1)
-    for i in range(1, n):
-        s = 0.0
-        for a, k in enumerate(ks):
-            if n - i - 1 >= k - 2:
-                s += k * ET[a] * special.comb(n - i - 1, k - 2, exact=True) / special.comb(n - 1, k - 1, exact=True)
-        out[i - 1] = theta / 2.0 * s
-    return out
+    return theta / 2.0 * (_branch_weights(n) @ ET)
+
+def coalescent_sfs(n, epochs, theta=1.0):
+    """epochs: list of (nu, T) FORWARD in time, following an infinitely old ancestral population of size 1.
+    Time in units of 2*Nref generations, theta = 4*Nref*mu.  Returns E[xi_i], i = 1..n-1."""
+    return _sfs_from_pieces(n, [(nu, T / nu) for nu, T in reversed(list(epochs)) if T > 0], theta)
+
+def refine_history(segments, M, K=4096):
+    """A size history with continuously varying epochs as a piecewise-constant one, as pieces (nu, dtau) BACKWARD in time.
+    segments: list (FORWARD in time) of (nu, T) with nu either a number (constant epoch) or a function of the time t in [0, T]
+    since the start of the epoch.  A varying epoch is cut into M pieces of EQUAL coalescent-time length dtau (tau(t) = int_0^t
+    ds/nu(s), composite Simpson on K sub-intervals, inverted by interpolation); a piece [t_j, t_j+1] gets the constant size
+    (t_j+1 - t_j)/dtau - its harmonic-mean size, so that both its real and its coalescent length are those of the continuous
+    history.  What is left is the variation of nu inside a piece, O(1/M^2)."""
+    out = []
+    for nu, T in segments:
+        if T <= 0: continue
+        if not callable(nu):
+            out.append((float(nu), float(T) / float(nu))); continue
+        t = np.linspace(0.0, T, 2 * K + 1)
+        inv = np.array([1.0 / nu(x) for x in t])
+        h = T / K
+        cell = h / 6.0 * (inv[0:-1:2] + 4.0 * inv[1::2] + inv[2::2])
+        tau = np.concatenate([[0.0], np.cumsum(cell)])          # at t[::2]
+        tj = np.interp(np.linspace(0.0, tau[-1], M + 1), tau, t[::2]); tj[0] = 0.0; tj[-1] = T
+        dtau = tau[-1] / M
+        out += [(float(tj[j + 1] - tj[j]) / dtau, dtau) for j in range(M)]
+    return out[::-1]
+
+def coalescent_sfs_timedep(n, segments, theta=1.0, rtol=1e-5, M0=250, Mmax=64000):
+    """expected SFS for a history whose epochs may have a time-dependent size (the death rates of the lineage process are
+    C(k,2)/nu(t)): piecewise-constant refinement of nu(t), doubled until two successive refinements agree to rtol on every entry
+    (the refinement check).  Returns (sfs, M used, last relative change)."""
+    if not any(callable(nu) and T > 0 for nu, T in segments):
+        return _sfs_from_pieces(n, refine_history(segments, 1), theta), 0, 0.0
+    M = M0
+    prev = _sfs_from_pieces(n, refine_history(segments, M), theta)
+    while True:
+        M *= 2
+        cur = _sfs_from_pieces(n, refine_history(segments, M), theta)
+        ch = float(np.max(np.abs(cur - prev) / cur))
+        if ch <= rtol:
+            return cur, M, ch
+        if M >= Mmax:
+            raise RuntimeError('coalescent oracle: refinement of nu(t) did not settle (change %.3g at M=%d)' % (ch, M))
+        prev = cur
 
 def selection_equilibrium_sfs(n, nu, gamma, h, theta=1.0):
     """E[xi_i] at drift-selection-mutation equilibrium for a population of relative size nu with scaled selection
